@@ -40,6 +40,15 @@ def fresh(desc, base="v", run=None):
             return RecV(desc[1], {f: fresh(d, f"{base}.{f}", run) for f, d in desc[2].items()}, desc)
         if tag == "drop":
             return Opaque(("dropped", base))
+        if tag == "nd":
+            if len(desc) > 2:
+                n = desc[2]
+            else:
+                n = z3.Int(fresh_name(base + ".len"))
+                if run:
+                    run.assume(n >= 0)
+            arr = z3.Array(fresh_name(base + ".data"), z3.IntSort(), z3.IntSort())
+            return NdV((n,), lambda idx, arr=arr: z3.Select(arr, zint(idx[0])), desc[1] if len(desc) > 1 else None)
         if tag == "obj":
             o = Obj(None, {f: fresh(d, f"{base}.{f}", run) for f, d in desc[2].items()}, abstract=desc[1])
             return o
